@@ -56,6 +56,12 @@ func zzApplyOp(l *SimpleLedger, m *zzModel, nOps int) {
 		l.SetCode(zzAddrs[1], c)
 		m.code = c
 	case 7:
+		// storage of the account that also gets balance / nonce / code (created in the same block
+		// when this is its first write)
+		v := []byte{zz.U8("v")}
+		l.SetState(zzAddrs[1], []byte("b"), v, nil)
+		m.kv["1b"] = v
+	case 8:
 		// touch without change
 		_, _ = l.GetState(zzAddrs[0], []byte("ab"))
 		_ = l.GetBalance(zzAddrs[1])
@@ -72,6 +78,12 @@ func zzMatches(l *SimpleLedger, m zzModel) bool {
 		} else {
 			res = zz.And(res, !ok)
 		}
+	}
+	okb, gotb := l.GetState(zzAddrs[1], []byte("b"))
+	if want, has := m.kv["1b"]; has {
+		res = zz.And(res, zz.And(okb, zz.EqBytes(gotb, want)))
+	} else {
+		res = zz.And(res, !okb)
 	}
 	res = zz.And(res, l.GetBalance(zzAddrs[1]).Cmp(new(big.Int).SetUint64(m.bal)) == 0)
 	res = zz.And(res, l.GetNonce(zzAddrs[1]) == m.nonce)
@@ -92,10 +104,10 @@ func ZZH_C12_rollback() {
 	cache, _ := NewAccountCache()
 	l := zzNewLedger(store, cache)
 	B := 2
-	nOps := 7
+	nOps := 8
 	if zz.Thorough() {
 		B = 3
-		nOps = 8
+		nOps = 9
 	}
 	m := zzModel{kv: map[string][]byte{}}
 	models := []zzModel{m.clone()}
@@ -157,4 +169,42 @@ func ZZH_C12_refuse() {
 		ok, got := l.GetState(zzAddrs[0], []byte("a"))
 		zz.Assert("C12.inside-window-state", ok && len(got) == 1 && uint64(got[0]) == t)
 	}
+}
+
+// ZZH_C12_refuse_ledger: the same on the whole ledger (state store, index store, block file):
+// 13 blocks are persisted (journal window = last 10), then Ledger.Rollback(t) with a symbolic t.
+// A refused rollback (above the head, below the window) leaves chain meta, both stores and every
+// block lookup as they were; an accepted one ends with chain and state at t.
+func ZZH_C12_refuse_ledger() {
+	chainStore, stateStore := zz.NewStore(), zz.NewStore()
+	bf := zz.NewBlockFile()
+	lg, err := New(nil, chainStore, stateStore, bf, nil, zz.Logger())
+	zz.Assert("C12.ledger.open", err == nil)
+	n := uint64(13)
+	parent := &types.Hash{}
+	for i := uint64(1); i <= n; i++ {
+		bd := zzExecBlockWith(lg, i, parent, 0, uint8(i))
+		lg.PersistBlockData(bd)
+		parent = bd.Block.BlockHash
+	}
+	chainBefore, stateBefore := chainStore.Clone(), stateStore.Clone()
+	t := zz.U64("target")
+	zz.Assume(t >= 1)
+	err = lg.Rollback(t)
+	meta := lg.GetChainMeta()
+	if t > n || t < n-10 {
+		zz.Assert("C12.ledger.refused", err != nil)
+		zz.Assert("C12.ledger.refused-chain-meta-kept", meta.Height == n && meta.BlockHash.String() == parent.String())
+		zz.Assert("C12.ledger.refused-stores-kept", chainStore.Same(chainBefore) && stateStore.Same(stateBefore))
+		_, e := lg.GetBlock(n, true)
+		zz.Assert("C12.ledger.refused-head-readable", e == nil)
+		zz.Assert("C12.ledger.refused-state-version", lg.Version() == n)
+	} else {
+		zz.Assert("C12.ledger.accepted", err == nil)
+		zz.Assert("C12.ledger.accepted-heights", meta.Height == t && lg.Version() == t)
+		ok, got := lg.GetState(zzAddrs[0], []byte("a"))
+		zz.Assert("C12.ledger.accepted-state", ok && len(got) == 1 && uint64(got[0]) == t)
+	}
+	zz.Cover("C12.ledger.below-window", t < n-10)
+	zz.Cover("C12.ledger.above-head", t > n)
 }
